@@ -104,6 +104,13 @@ func (s *StrategyChoiceModule) set(interest *spec.Interest, pitToken []byte, inF
 		return
 	}
 
+	if len(params.Strategy.Name) <= len(s.strategyPrefix) {
+		core.LogWarn(s, "Strategy=", params.Strategy.Name, " lacks a strategy name in ControlParameters for Interest=", interest.Name())
+		response = makeControlResponse(404, "Unknown strategy", nil)
+		s.manager.sendResponse(response, interest, pitToken, inFace)
+		return
+	}
+
 	strategyName := params.Strategy.Name[len(s.strategyPrefix)].String()
 	availableVersions, ok := fw.StrategyVersions[strategyName]
 	if !ok {
